@@ -41,6 +41,7 @@ TARGETS = {
     "parse_depth_plain": dict(flavour="plain", srcs=LIBS + ["fuzz/parse.cpp", "fuzz/standalone_main.cpp"]),
     "runner": dict(flavour="asan", srcs=LIBS + RUNNER_SRCS),
     "collide": dict(flavour="plain", srcs=["tools_cpp/collide.cpp"]),
+    "arith": dict(flavour="plain", srcs=LIBS + ["arith/arith.cpp"], ld=["-lrapidcheck"]),
 }
 
 
